@@ -22,6 +22,7 @@ LEVEL_TEXT = ('Every (word, sample) cell of every generated instance is compared
               'all sums exactly representable). Exploration: inputs are sampled; degenerate and unbalanced shapes are forced by construction.')
 LEVEL_NOTE = 'trusted: vlib/oracles/stats.py partitioned() (self-tested against scipy.stats.f_oneway and direct numpy formulas at start)'
 ASSUMPTIONS = [
+    'the final result is also requested after earlier compute() calls (between batches, twice in a row): it must still be the definition over all processed traces',
     'NaN-for-undefined is asserted only in the exact regime (integer-valued traces bounded so that every sum and squared sum is exactly representable in the precision)',
     'cells whose first-order error bound exceeds 5% of the value (ill-conditioned in the requested precision) are skipped and counted, never asserted',
     'rounded regime: tolerance = first-order bound of the final formula x number of traces (accumulation rounding)',
@@ -56,12 +57,20 @@ def run_instance(case, obj=None):
     kernels = list(case.get('kernels') or [])
     if kernels:
         obj._verif_force_kernel = list(kernels)
-    for a, b in zip(cuts, cuts[1:]):
-        if b > a:
-            must(case, '%s.update' % metric, obj.update, traces[a:b], data[a:b])
+    mid = list(case.get('mid_computes') or [])
     with warnings.catch_warnings():
         warnings.simplefilter('ignore')
+        for bi, (a, b) in enumerate(zip(cuts, cuts[1:])):
+            if b > a:
+                must(case, '%s.update' % metric, obj.update, traces[a:b], data[a:b])
+                if bi < len(mid) and mid[bi]:
+                    must(case, '%s.compute between batches' % metric, obj.compute)      # must not disturb what follows
         res = must(case, '%s.compute' % metric, obj.compute)
+        if case.get('compute_twice'):
+            res2 = must(case, '%s.compute (second call)' % metric, obj.compute)
+            if not dist.same(res, res2):
+                raise Violation('%s: two consecutive compute() calls without new data differ' % metric, case)
+            res = res2
     return obj, res
 
 
@@ -130,6 +139,8 @@ def check_case(ctx, case):
         labels.append('both_kernels')
     if data.ndim > 2:
         labels.append('word_ndim:%d' % (data.ndim - 1))
+    if any(case.get('mid_computes') or []) or case.get('compute_twice'):
+        labels.append('compute_before_final')
     ctx.case(case, unbalanced or empty, labels)
 
 
@@ -245,7 +256,8 @@ def cases(draw, precision, int_dtype, float_dtype):
     nb = len(cuts) + 1
     kernels = [draw(st.integers(0, 1)) for _ in range(nb)] if len(classes) <= 9 else []
     return {'kind': 'partitioned', 'dist': metric, 'precision': precision, 'regime': regime, 'traces': traces, 'data': data,
-            'cuts': cuts, 'partitions': partitions, 'kernels': kernels}
+            'cuts': cuts, 'partitions': partitions, 'kernels': kernels,
+            'mid_computes': [draw(st.booleans()) for _ in range(nb)], 'compute_twice': draw(st.booleans())}
 
 
 def unit_generated(ctx, precision, int_dtype, float_dtype, n):
